@@ -545,6 +545,11 @@ func (p *Path) finish(end *pathEnd, wantSample bool) {
 		}
 	case "panic-reported", "assert-failed":
 		end.kind = "done-violating"
+	case "unwind", "unsupported":
+		// say which inputs lead here (diagnosis only; the path stays inconclusive)
+		if r, model := p.sol.CheckModel(p.tc.Bool(true), p.nondets); r == "sat" {
+			end.msg += fmt.Sprintf(" [inputs %v]", cleanModel(model))
+		}
 	}
 	if wantSample && end.kind == "done" && len(p.nondets) > 0 {
 		r, model := p.sol.CheckModel(p.tc.Bool(true), p.nondets)
